@@ -7,6 +7,8 @@ Open Scope R_scope.
 (* distance of one pair, read off the generated (translated) pair_distance *)
 Definition d_src (L : Rm) (x y : Rv) : R := nth 0 (@Src_query.pair_distance ROps L [[x; y]]) 0.
 
+Arguments d_src : simpl never.
+
 Lemma d_src_dist L x y : d_src L x y = distR L x y.
 Proof. unfold d_src. rewrite src_pair_distance_eq. reflexivity. Qed.
 
